@@ -221,8 +221,8 @@ API_TEXT = {
  "C15": ("send fold theorem on S.addSend", "coalescing sinks with several sends per transaction over nested transactions"),
  "C17": ("Lazy memo-cell theorems + S lazy snapshot semantics", "lazies taken and forced at varying delays"),
  "C18": ("router = filter equation of S", "routers with duplicate keys, routes requested at any time"),
- "C06": ("collector soundness theorems on M_gc + contract check of the real gc graph", "drops/clones/collections interleaved with transactions"),
- "C07": ("collector completeness/termination theorems on M_gc + leak check", "abandon programs at any point, drop everything, collect"),
+ "C06": ("collector soundness theorems on M_gc, lifted to the collector graph of every API program by M_struct (run_reachable, struct_sound: recipes of every primitive as client operations of M_gc, compared with the real collector graph at every graphdump, level L-struct) + contract check of the real gc graph", "drops/clones/collections interleaved with transactions; every 2-/3-definition program dropped newest-first"),
+ "C07": ("collector completeness/termination theorems on M_gc, lifted to the collector graph of every API program by M_struct (struct_gc_complete, leakcheck_frees_all: after unlistening and dropping everything a collection frees every object; level L-struct ties the recipes to the real graph) + leak check", "abandon programs at any point, drop everything, collect"),
  "C09": ("order-independence: unique solution of S's equations and of the scheduler's fixed point", "metamorphic reorderings"),
 }
 
@@ -245,7 +245,7 @@ PROPS = {
     "C03": {"modules": ["SodiumVerif.Props.C03", "SodiumVerif.Props.Refine"], "audit_import": ["SodiumVerif.Props.C03", "SodiumVerif.Props.Refine"], "theorems": c_sched.C03_THEOREMS,
             "run": run_c03, "replay": node_replay,
             "technique": "Lean 4 theorem on the scheduler model M_sched (every DAG, every registration order) + exact update-order correspondence with update_node on raw Node graphs",
-            "level_text": "Glitch freedom is a theorem about M_sched for every finite DAG, registration order and set of fired sources; the model's update order must equal the real update_node's on random DAGs and on every DAG with <=4 (quick) / <=5 (thorough) nodes x registration orders x fired subsets, and the implementation is separately checked against a direct glitch predicate to find concrete failing graphs.",
+            "level_text": "Glitch freedom is a theorem about M_sched for every finite DAG, registration order and set of fired sources; the model's update order must equal the real update_node's on random DAGs and on every DAG with <=4 (quick) / <=5 (thorough) nodes x registration orders x fired subsets, and the implementation is separately checked against a direct glitch predicate to find concrete failing graphs. Level L-sched-api runs the same model on the node graphs the public API builds (M_struct's recipes give every node's dependencies) and compares the order of all update closures of every sending transaction with the hook log of the real update_node (the set of firing nodes is taken from the real run).",
             "level_note": "Trusted as for C08; raw Node graphs use a recording update closure (fires iff a dependency fired). API-level lifts/merges are covered under C02/C13.",
             "design_ref": "DESIGN.md section 6, C03"},
 }
